@@ -566,8 +566,8 @@ func (cs *ContractSet) LoadFile(path, pkgPath string, trusted bool) error {
 				return fmt.Errorf("%s:%d: effect <func> pure|noop", path, r.line)
 			}
 			key := pkgPath + "." + f[0]
-			if strings.Contains(f[0], "/") {
-				key = f[0]
+			if strings.Contains(f[0], "/") || strings.HasPrefix(f[0], "std:") {
+				key = strings.TrimPrefix(f[0], "std:")
 			}
 			cs.Effects[key] = f[1]
 			curF, curL = nil, nil
@@ -595,7 +595,8 @@ func (cs *ContractSet) LoadFile(path, pkgPath string, trusted bool) error {
 			}
 			fc.Trusted = trusted || r.kw == "assume-contract"
 			key := pkgPath + "." + name
-			if strings.Contains(name, "/") { // fully qualified name given
+			if strings.Contains(name, "/") || strings.HasPrefix(name, "std:") { // fully qualified name given
+				name = strings.TrimPrefix(name, "std:")
 				key = name
 				fc.Name = name
 			}
